@@ -99,6 +99,73 @@ pub fn language_membership() -> (u64, Vec<Violation>) {
     (n, out)
 }
 
+/// Values *built* from parts whose types are related (an empty array before a non-empty one, a
+/// narrower struct / tuple / function before a wider one, and the other way round): every ordered
+/// pair of a base set of parts, put together by every aggregate-building form, written as a
+/// constant and computed at run time. The run-time type the implementation attaches to the
+/// result must describe its contents, and whatever type of the universe that tag matches must
+/// hold the value.
+fn built_values(u2: &[Ty], tys: &[Type]) -> (u64, Vec<Violation>) {
+    use simplesl::variable::Variable;
+    use simplesl::{Code, Interpreter};
+    const PARTS: &[&str] = &[
+        "1", "2.5", "\"a\"", "()", "[]", "[1]", "[2.5]", "[1, 2.5]", "[[]]", "[[1]]", "(1, 2)", "(1, 2.5)", "struct{ a := 1 }",
+        "struct{ a := 1, b := 2.5 }", "struct{ a := 2.5 }", "mut 1", "(x: any) -> int { return 1 }", "(x: int) -> int { return 1 }",
+        "(x: int) -> any { return 1 }",
+    ];
+    const FORMS: &[&str] = &["[X, Y]", "[X] + [Y]", "[[X, Y]]", "[X, Y, X][0:2]", "[X; 1] + [Y; 1]", "[[X], [Y]]", "[(X, 1), (Y, 1)]", "([X, Y], 1)", "[X, Y, X]", "[Y] + [X, Y]"];
+    let n = PARTS.len() * PARTS.len() * FORMS.len() * 2;
+    let accs = par_fold(
+        n,
+        || (Vec::<Violation>::new(), 0u64, Interpreter::with_stdlib()),
+        |(out, count, interp), j| {
+            let run_time = j % 2 == 1;
+            let form = FORMS[(j / 2) % FORMS.len()];
+            let x = PARTS[(j / 2 / FORMS.len()) % PARTS.len()];
+            let y = PARTS[j / 2 / FORMS.len() / PARTS.len()];
+            let text = if run_time {
+                format!("f := (x: any, y: any) -> any {{ return {} }}; f({x}, {y})", form.replace('X', "x").replace('Y', "y"))
+            } else {
+                form.replace('X', x).replace('Y', y)
+            };
+            let v: Variable = match guard(|| Code::parse(interp, &text).map(|c| c.exec())) {
+                Ok(Ok(Ok(v))) => v,
+                Ok(_) => return, // rejected (the form does not apply to these parts) or a run-time error
+                Err(_) => {
+                    out.push(Violation { sig: format!("C10|built-value|program-fails|{form}"), detail: json!({"kind": "program", "stdlib": true, "text": text}) });
+                    return;
+                }
+            };
+            *count += 1;
+            let tag = v.as_type();
+            let route = if run_time { "run-time" } else { "constant" };
+            if !belongs(&v, &Ty::from_impl(&tag)) {
+                out.push(Violation {
+                    sig: format!("C10|built-value|tag-does-not-describe-contents|{form}|{route}|{} ; {}", x.chars().take(24).collect::<String>().replace('|', "/"), y.chars().take(24).collect::<String>().replace('|', "/")),
+                    detail: json!({"kind": "program", "stdlib": true, "text": text, "run_time_type_of_result": tag.to_string(), "expected": "the run-time type of a value holds the value (every element of an array is in the element type)"}),
+                });
+                return;
+            }
+            for (i, t) in tys.iter().enumerate() {
+                if tag.matches(t) && !belongs(&v, &u2[i]) {
+                    out.push(Violation {
+                        sig: format!("C10|built-value|tag-soundness|{form}|{route}|{}", p(&u2[i])),
+                        detail: json!({"kind": "program", "stdlib": true, "text": text, "run_time_type_of_result": tag.to_string(), "matches": u2[i].print(), "expected": "a value whose run-time type matches T is a member of T"}),
+                    });
+                    break;
+                }
+            }
+        },
+    );
+    let mut out = Vec::new();
+    let mut count = 0;
+    for (v, k, _) in accs {
+        out.extend(v);
+        count += k;
+    }
+    (count, out)
+}
+
 pub fn run(tier: &str) -> i32 {
     let thorough = tier == "thorough";
     let mut report = Report::new("C10", tier);
@@ -341,6 +408,9 @@ pub fn run(tier: &str) -> i32 {
     });
     report.violations(val_viols);
     evals += (n * n * n_values) as u64;
+    let built = built_values(&u2, &tys);
+    report.violations(built.1);
+    evals += built.0 * n as u64;
     let lang = language_membership();
     report.violations(lang.1);
     evals += lang.0;
@@ -360,6 +430,7 @@ pub fn run(tier: &str) -> i32 {
         "triples_for_transitivity": triples,
         "palette_values": n_values,
         "language_membership_cases (if-set / match type arm / ? T on value x tested type x static type of the tested expression)": lang.0,
+        "built_values (ordered pairs of 19 parts x 10 aggregate forms x constant / run-time, each against its own tag and every type of U2)": built.0,
         "type_pairs_separated_by_values": separated,
         "types_without_inhabitant_in_palette": thin,
         "distinct_outcomes": 2,
